@@ -32,7 +32,8 @@ FORMAT = (
     "left un-polled / 6 drive the future of request a -> one code per operation (poll: as in mode 1; call and clone: "
     "0 done, 8 refused because the handle is unknown or was not polled ready; gate: 3 Pending; others 0), one "
     "outcome code per issued request (every held call is released at the end), log and [violations] as in mode 1. "
-    "mode 0 (transparency): [0; n; layer ids; inner kind 0 direct / 1 tower Buffer / 2 tower ConcurrencyLimit(2); nreq; "
+    "mode 0 (transparency): [0; n; layer ids; inner kind 0 direct / 1 tower Buffer(4) / 2 tower ConcurrencyLimit(2) / "
+    "3 tower ConcurrencyLimit(1); nreq; "
     "(req; okind 0 Ok 1 Err; oval)*] -> per request [inner calls; request seen by the wrapped service; 0 Ok / "
     "1 inner error wrapped only in pass-through variants / 2 anything else; payload]. "
     "mode 2 (listeners, one layer in a triggering configuration): [2; layer id; nlisteners; panic mask; nreq; okind* "
@@ -53,7 +54,8 @@ RULE = (
     "per-instance oracles; bulkhead at its gate (21: a second request queues for the permit while the first is held, "
     "then the first is released) and adaptive limiter at its limit (23) at every depth of random stacks; parallel "
     "hedges with Pending answers on the hedge clones; futures left un-polled while the handle is polled and called "
-    "again. mode 0: every layer x inner kinds x ok/err, random stacks of 2..5 layers, the composition guide's stacks. "
+    "again. mode 0: every layer x inner kinds (direct, Buffer(4), ConcurrencyLimit(2), ConcurrencyLimit(1)) x ok/err, "
+    "random stacks of 2..5 layers, the composition guide's stacks. "
     "mode 2: every layer with a listener API x 1..4 listeners x every panic mask. mode 4: every layer alone, the "
     "guide's stacks and random stacks with 1..3 listeners on every layer x every panic mask. thorough adds all "
     "oracles over {Ready,Pending,Err} up to length 4 per layer and all two-layer stacks. Circuit breakers that have "
@@ -192,7 +194,7 @@ def corpus():
     out = []
     for st in GUIDE:
         hedge = 7 in st
-        for ik in (0, 1, 2):
+        for ik in (0, 1, 2, 3):
             out.append(transp(st, ik, [(5, 0, 11), (6, 0 if hedge else 1, 12), (5, 0, 13)]))
         out.append(proto(st, 0, 2, [1, 0, 2, 1, 1, 0]))
         out.append(proto(st, 0, 3, [0, 2, 0]))
@@ -202,6 +204,8 @@ def corpus():
     for lid in ALL + [20, 21, 22, 23]:
         out.append(transp([lid], 2, [(1, 0, 2)]))
         out.append(transp([lid], 1, [(1, 0, 2)]))
+        # one unit of inner capacity: a reservation made by poll_ready and not used by call() blocks the request
+        out.append(transp([lid], 3, [(1, 0, 2), (2, 0, 3)]))
         out.append(proto([lid], 1 if lid in SPECIAL else 0, 2, []))
     out.append(lis(2, 3, 5, [0, 1, 1, 1, 0, 0]))
     out.append(lis(3, 2, 3, [2, 1, 4, 0]))
@@ -217,12 +221,12 @@ def corpus():
     for lid in CB_VARIANTS:
         out.append(proto([lid], 0, 1, []))
         out.append(proto([lid], 0, 3, [1, 0, 2, 0]))
-        for ik in (0, 1, 2):
+        for ik in (0, 1, 2, 3):
             out.append(transp([lid], ik, [(1, 0, 2)]))
             out.append(transp([lid], ik, [(5, 0, 11), (6, 1, 12), (5, 0, 13)]))
     for st in ([4, 3, 16, 4], [6, 4, 3, 17, 4], [6, 4, 16], [4, 10, 17], [16, 3], [5, 16, 4], [4, 18, 0], [6, 19]):
         out.append(proto(st, 0, 2, [1, 0, 0]))
-        for ik in (0, 1, 2):
+        for ik in (0, 1, 2, 3):
             out.append(transp(st, ik, [(5, 0, 11), (6, 1, 12)]))
     # every layer at its gate, hedge through its timer branch, readiness errors with their kind
     for st in ([21], [4, 21], [21, 5], [6, 21, 0]):
@@ -510,7 +514,7 @@ def generate(rng, tier):
     def first_ok(reqs):
         return [(reqs[0][0], 0, reqs[0][2])] + list(reqs[1:])
     for lid in OPENED:
-        for ik in (0, 1, 2):
+        for ik in (0, 1, 2, 3):
             for reqs in ([(5, 0, 11)], [(5, 0, 11), (6, 1, 12), (5, 0, 13), (5, 1, 11)]):
                 out.append(transp([lid], ik, reqs))
             for _ in range(2 if quick else 20):
@@ -519,10 +523,10 @@ def generate(rng, tier):
         base = [rng.choice(ALL) for _ in range(rng.randrange(1, 5))]
         for pos in range(len(base) + 1):
             st = base[:pos] + [rng.choice(OPENED)] + base[pos:]
-            out.append(transp(st, rng.randrange(3), first_ok(rand_reqs(rng, rng.randrange(1, 4), 7 in st))))
+            out.append(transp(st, rng.randrange(4), first_ok(rand_reqs(rng, rng.randrange(1, 4), 7 in st))))
     # ---- mode 0: every layer alone
     for lid in ALL + [20, 21, 22, 23]:
-        for ik in (0, 1, 2):
+        for ik in (0, 1, 2, 3):
             pats = [[(5, 0, 11)], [(5, 0, 11), (6, 0, 12), (5, 0, 13)]]
             if lid not in HEDGES:
                 pats += [[(6, 1, 12)], [(5, 0, 11), (6, 1, 12), (5, 0, 13), (5, 1, 11), (7, 1, 0)]]
@@ -535,15 +539,15 @@ def generate(rng, tier):
         st = rand_stack(rng, 2, 5)
         if rng.random() < 0.15:
             st[rng.randrange(len(st))] = rng.choice((20, 21, 22, 23))
-        out.append(transp(st, rng.randrange(3), rand_reqs(rng, rng.randrange(1, 4), any(h in st for h in HEDGES))))
+        out.append(transp(st, rng.randrange(4), rand_reqs(rng, rng.randrange(1, 4), any(h in st for h in HEDGES))))
     for st in GUIDE:
-        for ik in (0, 1, 2):
+        for ik in (0, 1, 2, 3):
             for _ in range(2 if quick else 20):
                 out.append(transp(st, ik, rand_reqs(rng, rng.randrange(1, 5), 7 in st)))
     if not quick:
         for a in ALL:
             for b in ALL:
-                for ik in (0, 1, 2):
+                for ik in (0, 1, 2, 3):
                     hedge = 7 in (a, b)
                     out.append(transp([a, b], ik, [(3, 0, 4), (5, 0 if hedge else 1, 6)]))
     # ---- mode 2: every layer with listeners x all panic masks
